@@ -745,9 +745,9 @@ impl<C: Suite> Sim<C> {
                 let (res, key) = if split_key {
                     let k = self.split_key.unwrap();
                     let sk = frost::SigningKey::<C>::from_scalar(k).expect("nonzero");
-                    (keys::split(&sk, n, t, il, &mut rng), Some(k))
+                    (C::w_split(&sk, n, t, il, &mut rng), Some(k))
                 } else {
-                    (keys::generate_with_dealer::<C, _>(n, t, il, &mut rng), None)
+                    (C::w_generate_with_dealer(n, t, il, &mut rng), None)
                 };
                 match res {
                     Err(e) => self.err(node, inst, "generate_with_dealer/split", format!("{e:?}")),
@@ -778,7 +778,8 @@ impl<C: Suite> Sim<C> {
                 let id = self.ids[node];
                 // a scenario may give one key generation instance another threshold (concurrent runs that differ in t)
                 let t = self.scen.extra.get("dkg_t").and_then(|m| m.get(inst.to_string())).and_then(|v| v.as_u64()).map(|v| v as u16).unwrap_or(t);
-                match dkg::part1::<C, _>(id, n, t, rng) {
+                let mut rng = rng;
+                match C::w_dkg_part1(id, n, t, &mut rng) {
                     Err(e) => self.err(node, inst, "dkg::part1", format!("{e:?}")),
                     Ok((secret, pkg)) => {
                         self.history.push(Record::DkgPart1 { node, inst, secret_json: serde_json::to_string(&secret).unwrap_or_default(), pkg: pkg.clone() });
@@ -803,7 +804,8 @@ impl<C: Suite> Sim<C> {
             Inst::RefreshDkg { remaining } => {
                 let rng = self.rng(node, inst, "refresh_part1");
                 let id = self.ids[node];
-                match keys::refresh::refresh_dkg_part1::<C, _>(id, remaining.len() as u16, t, rng) {
+                let mut rng = rng;
+                match C::w_refresh_dkg_part1(id, remaining.len() as u16, t, &mut rng) {
                     Err(e) => self.err(node, inst, "refresh_dkg_part1", format!("{e:?}")),
                     Ok((secret, pkg)) => {
                         self.history.push(Record::DkgPart1 { node, inst, secret_json: serde_json::to_string(&secret).unwrap_or_default(), pkg: pkg.clone() });
@@ -841,7 +843,7 @@ impl<C: Suite> Sim<C> {
                     None => return self.err(node, inst, "refresh dealer", "hub has no public key package".into()),
                 };
                 let idlist: Vec<Identifier<C>> = remaining.iter().map(|p| self.ids[*p]).collect();
-                match keys::refresh::compute_refreshing_shares::<C, _>(old_pk.clone(), &idlist, &mut rng) {
+                match C::w_compute_refreshing_shares(old_pk.clone(), &idlist, &mut rng) {
                     Err(e) => self.err(node, inst, "compute_refreshing_shares", format!("{e:?}")),
                     Ok((shares, new_pk)) => {
                         if shares.len() != remaining.len() {
@@ -966,7 +968,7 @@ impl<C: Suite> Sim<C> {
                     None => return self.err(me, inst, "commit", "no key package".into()),
                 };
                 let mut rng = self.rng(me, inst, "commit");
-                let (nonces, commitments) = frost::round1::commit::<C, _>(kp.signing_share(), &mut rng);
+                let (nonces, commitments) = C::w_commit(kp.signing_share(), &mut rng);
                 self.history.push(Record::Commit {
                     node: me,
                     inst,
@@ -1011,7 +1013,7 @@ impl<C: Suite> Sim<C> {
                     _ => return self.err(me, inst, "sign", "not a signing instance".into()),
                 };
                 let res = match &mode {
-                    SignMode::Plain => frost::round2::sign(&pkg, &nonces, &kp),
+                    SignMode::Plain => C::w_sign(&pkg, &nonces, &kp),
                     SignMode::Rerand => frost_rerandomized::sign_with_randomizer_seed(&pkg, &nonces, &kp, &parts[1]),
                     SignMode::Tweak(root) => crate::tr::sign_with_tweak::<C>(&pkg, &nonces, &kp, root.as_deref()),
                 };
@@ -1042,7 +1044,7 @@ impl<C: Suite> Sim<C> {
                     Some(kp) => kp.clone(),
                     None => return self.err(me, inst, "refresh_share", "no key package".into()),
                 };
-                match keys::refresh::refresh_share::<C>(sh, &old_kp) {
+                match C::w_refresh_share(sh, &old_kp) {
                     Err(e) => self.err(me, inst, "refresh_share", format!("{e:?}")),
                     Ok(new_kp) => {
                         self.history.push(Record::Refreshed { node: me, inst, old_kp, new_kp: new_kp.clone(), new_pk: None });
@@ -1066,7 +1068,7 @@ impl<C: Suite> Sim<C> {
                 };
                 let helper_ids: Vec<Identifier<C>> = helpers.iter().map(|h| self.ids[*h]).collect();
                 let mut rng = self.rng(me, inst, "repair1");
-                match repairable::repair_share_part1::<C, _>(&helper_ids, &kp, &mut rng, self.ids[target]) {
+                match C::w_repair1(&helper_ids, &kp, &mut rng, self.ids[target]) {
                     Err(e) => self.err(me, inst, "repair_share_part1", format!("{e:?}")),
                     Ok(deltas) => {
                         self.history.push(Record::RepairDeltas { node: me, inst, deltas: deltas.clone(), kp });
@@ -1099,7 +1101,7 @@ impl<C: Suite> Sim<C> {
                 r.deltas_in.push((env.from, d));
                 if r.deltas_in.len() == helpers.len() && !r.sigma_sent {
                     let ds: Vec<Delta<C>> = r.deltas_in.iter().map(|(_, d)| *d).collect();
-                    let sigma = repairable::repair_share_part2::<C>(&ds);
+                    let sigma = C::w_repair2(&ds);
                     r.sigma_sent = true;
                     match enc(fmt, &sigma) {
                         Ok(b) => self.send(inst, Kind::RepairSigma, me, target, b),
@@ -1146,7 +1148,7 @@ impl<C: Suite> Sim<C> {
         }
         let sig: Vec<Sigma<C>> = r.sigmas_in.iter().map(|(_, s)| *s).collect();
         let pk = r.pk.clone().unwrap();
-        match repairable::repair_share_part3::<C>(&sig, id, &pk) {
+        match C::w_repair3(&sig, id, &pk) {
             Err(e) => self.err(me, inst, "repair_share_part3", format!("{e:?}")),
             Ok(kp) => {
                 let lost = self.lost_kp.get(&me).cloned();
@@ -1193,7 +1195,7 @@ impl<C: Suite> Sim<C> {
             if st.r1_secret.is_some() && st.r2_secret.is_none() && st.r1_in.len() == need {
                 let secret = st.r1_secret.take().unwrap();
                 let r1 = st.r1_in.clone();
-                let res = if is_refresh { keys::refresh::refresh_dkg_part2::<C>(secret, &r1) } else { dkg::part2::<C>(secret, &r1) };
+                let res = if is_refresh { C::w_refresh_dkg_part2(secret, &r1) } else { C::w_dkg_part2(secret, &r1) };
                 match res {
                     Err(e) => self.err(me, inst, if is_refresh { "refresh_dkg_part2" } else { "dkg::part2" }, format!("{e:?}")),
                     Ok((r2s, out)) => {
@@ -1226,11 +1228,11 @@ impl<C: Suite> Sim<C> {
         let r2s = d.r2_secret.as_ref().unwrap();
         let res = if is_refresh {
             match (&st.pk, &st.kp) {
-                (Some(pk), Some(kp)) => keys::refresh::refresh_dkg_shares::<C>(r2s, &d.r1_in, &d.r2_in, pk.clone(), kp.clone()),
+                (Some(pk), Some(kp)) => C::w_refresh_dkg_shares(r2s, &d.r1_in, &d.r2_in, pk.clone(), kp.clone()),
                 _ => return self.err(me, inst, "refresh_dkg_shares", "no key material".into()),
             }
         } else {
-            dkg::part3::<C>(r2s, &d.r1_in, &d.r2_in)
+            C::w_dkg_part3(r2s, &d.r1_in, &d.r2_in)
         };
         match res {
             Err(e) => self.err(me, inst, if is_refresh { "refresh_dkg_shares" } else { "dkg::part3" }, format!("{e:?}")),
@@ -1356,7 +1358,7 @@ impl<C: Suite> Sim<C> {
                         None => return self.err(hub, inst, "aggregate", "no public key package".into()),
                     };
                     let (result, params) = match &mode {
-                        SignMode::Plain => (frost::aggregate(&pkg, &shares, &pk), None),
+                        SignMode::Plain => (C::w_aggregate(&pkg, &shares, &pk), None),
                         SignMode::Rerand => match RandomizedParams::<C>::regenerate_from_seed_and_commitments(pk.verifying_key(), &seed, pkg.signing_commitments()) {
                             Ok(params) => (frost_rerandomized::aggregate(&pkg, &shares, &pk, &params), Some(params)),
                             Err(e) => (Err(e), None),
